@@ -182,6 +182,7 @@ class MultiFS(FS):
             mode (str): An `io.open` mode.
 
         """
+        self.check()
         if check_writable(mode):
             return self._write_fs_name, self.write_fs
         for name, fs in self.iterate_fs():
@@ -302,6 +303,7 @@ class MultiFS(FS):
 
     def download(self, path, file, chunk_size=None, **options):
         # type: (Text, BinaryIO, Optional[int], **Any) -> None
+        self.check()
         fs = self._delegate_required(path)
         return fs.download(path, file, chunk_size=chunk_size, **options)
 
@@ -414,12 +416,14 @@ class MultiFS(FS):
 
     def upload(self, path, file, chunk_size=None, **options):
         # type: (Text, BinaryIO, Optional[int], **Any) -> None
+        self.check()
         self._writable_required(path).upload(
             path, file, chunk_size=chunk_size, **options
         )
 
     def writebytes(self, path, contents):
         # type: (Text, bytes) -> None
+        self.check()
         self._writable_required(path).writebytes(path, contents)
 
     def writetext(
@@ -431,6 +435,7 @@ class MultiFS(FS):
         newline="",  # type: Text
     ):
         # type: (...) -> None
+        self.check()
         write_fs = self._writable_required(path)
         return write_fs.writetext(
             path, contents, encoding=encoding, errors=errors, newline=newline
